@@ -175,6 +175,14 @@ def check(p, is_bytes, mode, win, out, stream, extra=''):
             return
     try:
         with util.watchdog(5):
+            if (len(p) + sum(map(ord, p))) % 2:
+                # for half of the texts the plain call on the very same text comes first in this process: whatever it leaves behind
+                # must not change what RAWCHARS does with the text afterwards
+                try:
+                    call(mode, 't', enc(p), None, base)
+                    out.stats['plain_call_first'] += 1
+                except Exception:
+                    pass
             try:
                 got_t = call(mode, 't', enc(p), None, base | mod.RAWCHARS)
                 got = 'ok'
